@@ -192,10 +192,10 @@ var schedConfigs = map[string][]string{
 }
 var schedConfigOrder = []string{"shared", "siblings", "chain", "mixed", "samerec"}
 
-func buildSchedTree(root slog.Handler, salt uint64) *schedTree {
+func buildSchedTree(root slog.Handler, salt uint64, lc liveCtx) *schedTree {
 	t := &schedTree{hs: map[string]slog.Handler{"root": root}, acc: map[string][]int{"root": {}}}
 	derive := func(name, parent string, ids ...int) {
-		t.hs[name] = t.hs[parent].WithAttrs(concretise(ids, salt, plainGens))
+		t.hs[name] = t.hs[parent].WithAttrs(concretiseL(ids, salt, plainGens, lc))
 		t.acc[name] = append(append([]int{}, t.acc[parent]...), ids...)
 	}
 	derive("A", "root", 21, 22)
@@ -235,7 +235,20 @@ func runSchedule(res *vh.Result, st *schedStats, raw []byte, v *schedVec, steps 
 	thr := []int{-4, 0, 8}[(salt>>4)%3]
 	opts := makeOpts(variant, thr)
 	root := slogutil.NewJSONHybridHandler(w, opts)
-	tree := buildSchedTree(root, salt)
+	// Live handler attributes (ids 21, 41, 61, 81, 101, 121): they evaluate to
+	// the cell of the goroutine that renders them - 0 while the tree is derived,
+	// 100+p inside the Handle call of process p - so a value resolved at
+	// derivation time shows.  The controller computes the expected lines with
+	// the override.
+	cells := map[string]int64{}
+	var override int64
+	lc := liveCtx{kind: 1 + int(salt>>20)%2, get: func() int64 {
+		if name, ok := s.Current(); ok {
+			return cells[name]
+		}
+		return override
+	}}
+	tree := buildSchedTree(root, salt, lc)
 	ref := newReference(opts)
 	key := fmt.Sprintf("sched gates=%v big=%v faults=%v handlers=%s schedule=[%s]", v.Gates, v.Big, v.Fault, cfg, schedKey(steps))
 	detail := func(extra map[string]any) map[string]any {
@@ -299,7 +312,10 @@ func runSchedule(res *vh.Result, st *schedStats, raw []byte, v *schedVec, steps 
 			recs[p] = specs[p].build(nil)
 			wantErr[p] = lv >= 8
 		}
-		m, rerr := ref.line(specs[p], concretise(tree.acc[hname[p]], salt, plainGens))
+		cells["p"+strconv.Itoa(p)] = int64(100 + p)
+		override = int64(100 + p)
+		m, rerr := ref.line(specs[p], concretiseL(tree.acc[hname[p]], salt, plainGens, lc))
+		override = 0
 		if rerr != nil {
 			return out, rerr
 		}
